@@ -10,7 +10,7 @@ fn keyfn(r: &Req) -> u32 {
 }
 type Svc = <CoalesceLayer<u32, Req, fn(&Req) -> u32> as Layer<Inner>>::Service;
 pub struct CoalesceAd {
-    svc: Option<Svc>,
+    svc: Option<Handles<Svc>>,
 }
 impl CoalesceAd {
     pub fn new() -> Self {
@@ -22,22 +22,23 @@ impl Adapter for CoalesceAd {
         "coalesce"
     }
     fn gen_cfg(&mut self, _rng: &mut Rng, _size: Size) -> Value {
-        json!({"x": 0, "ctor": _rng.below(2)})
+        json!({"hm": _rng.below(3), "x": 0, "ctor": _rng.below(2)})
     }
-    fn build(&mut self, _cfg: &Value, sim: &mut Sim) {
-        let layer: CoalesceLayer<u32, Req, fn(&Req) -> u32> = if _cfg["ctor"].as_u64().unwrap_or(0) == 1 {
+    fn build(&mut self, cfg: &Value, sim: &mut Sim) {
+        let layer: CoalesceLayer<u32, Req, fn(&Req) -> u32> = if cfg["ctor"].as_u64().unwrap_or(0) == 1 {
             CoalesceLayer::builder(keyfn as fn(&Req) -> u32).name("verif").build()
         } else {
             CoalesceLayer::new(keyfn as fn(&Req) -> u32)
         };
-        self.svc = Some(layer.layer(Inner::new(&sim.w)));
+        self.svc = Some(Handles::new(layer.layer(Inner::new(&sim.w)), cfg["hm"].as_u64().unwrap_or(0)));
     }
     fn mk(&mut self, req: &Req) -> CallFut {
-        let mut s = self.svc.as_ref().unwrap().clone();
-        let w = futures::task::noop_waker();
-        let mut cx = std::task::Context::from_waker(&w);
-        let _ = s.poll_ready(&mut cx);
-        let f = s.call(req.clone());
+        let f = self.svc.as_mut().unwrap().with(|s| {
+            let w = futures::task::noop_waker();
+            let mut cx = std::task::Context::from_waker(&w);
+            let _ = s.poll_ready(&mut cx);
+            s.call(req.clone())
+        });
         keep_alive(f, |r| match r {
             Ok(r) => Out::Ok { val: r.serial, req: r.req },
             Err(CoalesceError::Service(e)) => Out::Err { kind: format!("inner{}", e.code), val: e.serial as i64 },
